@@ -687,6 +687,11 @@ def oracle_world(w):
                 for m in rows:
                     if m["id"].endswith("!"):
                         fail("C04", "stored-id-not-hash", len(w.trace) - 1, f"stored message {m['id']} at c{c}: id is not the hash of its content")
+                        # C02 "carrying the author, id, kind, tags, timestamp and content its sender gave it": the sender computed the
+                        # id over exactly those fields, so a stored row whose id is not the hash of its columns was altered on the way
+                        fail("C02", "message-not-intact", len(w.trace) - 1, f"message {e['mid']} is stored at c{c} with columns that do not hash to the id its sender gave it")
+                    if str(m["author"]) != str(e["sender"]) and e.get("rewrap_of") is None and not e.get("adv"):
+                        fail("C02", "message-not-intact", len(w.trace) - 1, f"message {e['mid']} sent by c{e['sender']} is stored at c{c} under author c{m['author']}")
     return fails, facts
 
 def first_offer_epochs(w):
